@@ -255,6 +255,11 @@ def _array(obj, dtype=None, copy=True, order='K', subok=False, ndmin=0, **kw):
 
 def _from_object(A, dtype, copy):
     if dtype is not None and not _is_float_dtype(dtype) and _np.dtype(dtype).kind in 'iu':
+        # an object array that already stands for an integer array (integer-sorted
+        # symbols) is returned as it is when no copy was asked for, like asarray does
+        if not copy and A.size and all((isinstance(x, Sym) and x.is_int_sorted() and x.const_value() is None) or
+                                       isinstance(x, SymInt) for x in A.reshape(-1)):
+            return A
         # integer request: native if every entry is a constant integer
         # (the memory order of the source is kept, as astype / asarray do)
         try:
